@@ -227,8 +227,16 @@ func (c *FCtx) run(alias [2]string) {
 	} else {
 		c.obls = append(c.obls, &Obligation{Name: c.curFunc + "/cover-pre", Func: fi.Key, Kind: "cover", Hyps: append([]*Term(nil), st.pc...), Goal: True(), ExpectSat: true, Pos: con.Pos, Variant: c.variant})
 	}
+	c.exitApplied = map[int]int{}
 	flows := c.execBlock(st, fi.Decl.Body.List)
 	flows = append(flows, c.takeSide()...)
+	defer func() {
+		for k, en := range con.Exits {
+			if en.visible(c.prop) && c.exitApplied[k] == 0 && recover() == nil {
+				fail("exit clause %d of %s applies to no return statement (%s)", k+1, c.curFunc, en.Src)
+			}
+		}
+	}()
 	nret := 0
 	for _, f := range flows {
 		switch f.kind {
@@ -279,12 +287,6 @@ func (c *FCtx) recordInputs(name string, v Val, st *State) {
 func (c *FCtx) checkReturn(f Flow) {
 	con := c.con
 	env := c.exitEnv(f.st, f.results)
-	for k, en := range con.Ensures {
-		if !en.visible(c.prop) {
-			continue
-		}
-		c.oblige(f.st, "ensures", fmt.Sprintf("ensures[%d] %s @return %s", k+1, en.Src, lineOf(f.pos)), env.evalBool(en.E), f.pos)
-	}
 	if len(con.Exits) > 0 && f.retPos.IsValid() {
 		// internal postconditions may mention the locals in scope at this return statement
 		benv := c.bodyEnv(f.st, f.retPos)
@@ -294,8 +296,32 @@ func (c *FCtx) checkReturn(f Flow) {
 			if !en.visible(c.prop) {
 				continue
 			}
-			c.oblige(f.st, "exit", fmt.Sprintf("exit[%d] %s @return %s", k+1, en.Src, lineOf(f.pos)), xenv.evalBool(en.E), f.pos)
+			// a clause that names locals not yet in scope at this return statement does not apply to it
+			t, ok := func() (t *Term, ok bool) {
+				defer func() {
+					if r := recover(); r != nil {
+						if u, isU := r.(unsupported); isU && strings.Contains(u.msg, "unknown identifier") {
+							ok = false
+							return
+						}
+						panic(r)
+					}
+				}()
+				return xenv.evalBool(en.E), true
+			}()
+			if !ok {
+				continue
+			}
+			c.exitApplied[k]++
+			c.oblige(f.st, "exit", fmt.Sprintf("exit[%d] %s @return %s", k+1, en.Src, lineOf(f.pos)), t, f.pos)
+			f.st.assume(t) // proved above: later exit clauses and the ensures clauses may use it (cut point)
 		}
+	}
+	for k, en := range con.Ensures {
+		if !en.visible(c.prop) {
+			continue
+		}
+		c.oblige(f.st, "ensures", fmt.Sprintf("ensures[%d] %s @return %s", k+1, en.Src, lineOf(f.pos)), env.evalBool(en.E), f.pos)
 	}
 	// declared refusals are complete: on a normal return no `when` condition held at entry
 	for _, pc := range con.Panics {
